@@ -49,10 +49,15 @@ pub fn c13(opts: &Opts) -> Report {
                 _ => gens::text(&mut ctx.rng, 5),
             };
             let input = if body.starts_with('-') && body.len() <= 2 && ctx.rng.chance(1, 2) { body.clone() } else { format!("{}{}", body, ws_tail(&mut ctx.rng)) };
+            // every 20th configuration: the INPUT argument is exactly "-" (or "--"), template and input both given as
+            // arguments, stdin a pipe with or without data: the argument is the input, verbatim
+            let dash_case = i % 20 == 3;
+            let (tpl, input) = if dash_case { (ctx.rng.pick(&["[{append:!}]", "{split:-:..|join:+}", "{upper}", "<{}>"]).to_string(), ctx.rng.pick(&["-", "-", "--"]).to_string()) } else { (tpl, input) };
+            if dash_case { ctx.rep.bump("dash_input_argument"); }
             if !arg_safe(&tpl) || !arg_safe(&input) { return; }
-            let debug = ctx.rng.chance(1, 4); let quiet = ctx.rng.chance(1, 4); let validate = ctx.rng.chance(1, 6);
-            let tmode = ctx.rng.below(10);   // 0-5 arg, 6-7 file, 8 unreadable file, 9 both
-            let imode = ctx.rng.below(10);   // 0-3 arg, 4-6 stdin, 7 file, 8 unreadable, 9 both
+            let debug = ctx.rng.chance(1, 4); let quiet = ctx.rng.chance(1, 4); let validate = ctx.rng.chance(1, 6) && !dash_case;
+            let tmode = if dash_case { 0 } else { ctx.rng.below(10) };   // 0-5 arg, 6-7 file, 8 unreadable file, 9 both
+            let imode = if dash_case { 0 } else { ctx.rng.below(10) };   // 0-3 arg, 4-6 stdin, 7 file, 8 unreadable, 9 both
             let tfile = dir_ref.join(format!("t{}", i)); let ifile = dir_ref.join(format!("i{}", i));
             let tpad_l = ws_tail(&mut ctx.rng); let tpad_r = ws_tail(&mut ctx.rng);
             let mut cmd = Command::new(&bin);
